@@ -50,8 +50,8 @@ def run(ck):
         hits = []
 
         def step(st, ev):
-            # a helper that may write to the socket counts as a write (unless it is the drain routine's own lambda, handled by step0)
-            if is_write_call(ev) or (may_write(ev) and not (ev.get("callee") or "").startswith("lambda@")):
+            # a helper or local lambda that may write to the socket counts as a write
+            if is_write_call(ev) or may_write(ev):
                 hits.append(ev)
                 return None
             return step0(st, ev)
@@ -80,12 +80,12 @@ def run(ck):
     g = lib.single(prog, T + "onReady")
     wblocks = [b for b in g.blocks.values() if b.term and b.term.get("k") == "if" and "c:Pistache::Aio::FdSet::Entry::isWritable" in (b.term.get("refs") or [])]
     ck.require(wblocks, "isWritable test not found in Transport::onReady")
+    is_drain = summ.lift_must(lambda ev: ev["k"] == "call" and (ev.get("callee") or "") == T + "asyncWriteImpl", "resume-drain")
     for b in wblocks:
-        arm = b.succs[0]
-        heads = {x.id for x in g.blocks.values() if x.term and x.term.get("k") == "rangefor"}
-
-        def is_drain(ev):
-            return ev["k"] == "call" and (ev.get("callee") or "") == T + "asyncWriteImpl"
+        # the edge on which isWritable() holds (`if (w) {..}` or `if (!w) continue;`)
+        wk = 1 if b.term.get("neg") else 0
+        arm = b.succs[wk]
+        heads = {x.id for x in g.blocks.values() if x.term and x.term.get("k") == "rangefor"} | {h for h, _b in cfg.natural_loops(g)}
         missing = []
 
         def step(st, ev):
@@ -104,7 +104,7 @@ def run(ck):
               "writable event handled without resuming the drain" if (bad or missing) else "asyncWriteImpl(fd) on every non-throwing path")
         # nothing may reduce the interest set after the drain: a would-block inside asyncWriteImpl re-arms Read|Write, and a later
         # modifyFd(Read) in the caller would silently cancel it (the rest of the response would stay queued forever)
-        for d_ in [e for e in g.events("call") if is_drain(e) and cfg.edge_dominates(g, b.id, 0, e)]:
+        for d_ in [e for e in g.events("call") if is_drain(e) and cfg.edge_dominates(g, b.id, wk, e)]:
             later = [e for e in cfg.events_after(g, d_, stop=lambda e: False) if e["k"] == "call" and (e.get("callee") or "") == "Pistache::Aio::Reactor::modifyFd"
                      and not lib.refs_enumerator(e, "Pistache::Polling::NotifyOn::Write") and e.block not in heads]
             # only events of the same loop iteration: stop at the loop head
@@ -119,28 +119,14 @@ def run(ck):
             "in Transport::handleWriteQueue every push into toWrite[fd] is followed, on every path to the next iteration or the exit, by "
             "Reactor::modifyFd with NotifyOn::Write", 1)
     hw = lib.single(prog, T + "handleWriteQueue")
-    pushes = [e for e in hw.calls(lambda e: e.base_callee() == "std::deque::push_back")]
-    ck.require(pushes, "push into toWrite not found in handleWriteQueue")
-    hheads = {h for h, _body in cfg.natural_loops(hw)}
-    for e in pushes:
-        miss = []
-
-        def step5(st, ev):
-            if must_arm(ev):
-                return None
-            return st
-
-        def edge5(st, blk, k, succ):
-            if succ in hheads:
-                miss.append(blk.id)
-                return None
-            return st
-        exits5, _ = cfg.run_automaton(hw, 0, step5, edge=edge5, start=e.block, start_idx=e.idx + 1)
-        bad5 = [x for x in exits5 if x.kind != "throw"]
-        ck.ob("C07-R5", "handleWriteQueue/push-arms-write-interest", not miss and not bad5, e.loc, hw,
-              "modifyFd(Read|Write) after every queued write" if not miss and not bad5 else
-              "a write can be queued without re-arming write interest: if the descriptor's writable edge was already consumed, nothing wakes "
-              "the worker for this connection again")
+    is_fifo_push = lambda e: e["k"] == "call" and e.base_callee() == "std::deque::push_back" and "WriteEntry" in (e.get("callee") or "")
+    nsites, fails = lib.followed_by(prog, summ, hw, is_fifo_push, arms_write_direct, "arm-write-interest",
+                                    within=lambda g: g.base.startswith(T) and g.base not in (T + "asyncWriteImpl",))
+    ck.require(nsites >= 1, "push into toWrite not found in handleWriteQueue or its helpers")
+    ck.ob("C07-R5", "handleWriteQueue/push-arms-write-interest", not fails, fails[0][1].loc if fails and fails[0][1] is not None else hw.loc, hw,
+          "modifyFd(Read|Write) after every queued write" if not fails else
+          "a write can be queued without re-arming write interest (%s): if the descriptor's writable edge was already consumed, nothing wakes "
+          "the worker for this connection again" % fails[0][2])
     # R3b: arming reaches the kernel
     for m in prog.find("Pistache::Aio::Reactor::modifyFd", 2):
         chain = lib.reaches_external(prog, m, {"epoll_ctl"})
